@@ -33,7 +33,7 @@ Print Assumptions c07_current_tree_unmarked.
 
 (* ---------------------------------------------------------------------------------------------- *)
 (* Store.Flush with a failing WriteAt call, on bytes *)
-From GK Require Import Base Treap Store Codec Disk DiskProofs DiskFault DiskFaultProofs.
+From GK Require Import Base Treap Store StoreSpec StoreRefine Codec Disk DiskProofs DStore DStoreRefine DiskFault DiskFaultProofs DFaultRun DFaultHist.
 From Coq Require Import ZArith List.
 Import ListNotations.
 Local Open Scope Z_scope.
@@ -118,3 +118,48 @@ Theorem c07_fault_example :
      failed && beq f2 f3 && (s2 =? s3)) [0; 1; 7; 30]%nat) (seq 0 (flush_calls cs0)) = true.
 Proof. exact DiskFaultProofs.ex_fault_retry. Qed.
 Print Assumptions c07_fault_example.
+
+(* ---------------------------------------------------------------------------------------------- *)
+(* OVER WHOLE HISTORIES (DFaultRun.dfrun: DStore histories in which Flush calls may fail).  Under the retry
+   discipline (a failed Flush is followed by further failed attempts and then by the Flush again) ... *)
+
+(* ... any number of failed attempts followed by the Flush leave the byte-level store in exactly the state of a
+   Flush that never failed *)
+Theorem c07_failed_attempts_then_flush : forall attempts s,
+  dsz s ->
+  Forall (fun o => exists k torn, o = FFlushFail k torn) attempts ->
+  faults_fire s attempts ->
+  let s1 := fold_left (fun st o => fst (dfstep st o)) attempts s in
+  dstep s1 OFlush = dstep s OFlush.
+Proof. exact DFaultHist.failed_attempts_then_flush. Qed.
+Print Assumptions c07_failed_attempts_then_flush.
+
+(* ... so every completed call of the history answers exactly as in the history without the failed attempts, and
+   leaves the same file: all later operations behave as if the failed calls had never been made *)
+Theorem c07_retry_invisible : forall ops s,
+  dsz s -> retried ops -> faults_fire s ops ->
+  completed ops (dfrun s ops) = combine (drun s (strip ops)) (dfiles s (strip ops)).
+Proof. exact DFaultHist.dfrun_retry_invisible. Qed.
+Print Assumptions c07_retry_invisible.
+
+(* ... and (with C02's history theorem) that is the abstract store with its stack of flushed states *)
+Theorem c07_retry_refines_store : forall ops,
+  retried ops -> faults_fire dinit ops ->
+  ops_ok [] (strip ops) -> history_ok (strip ops) ->
+  map fst (completed ops (dfrun dinit ops)) = run (init true) (strip ops).
+Proof. exact DFaultHist.dfrun_refines_store. Qed.
+Print Assumptions c07_retry_refines_store.
+
+(* every failed attempt returns an error *)
+Theorem c07_failed_attempts_err : forall ops s i k torn,
+  faults_fire s ops -> nth_error ops i = Some (FFlushFail k torn) ->
+  exists f, nth_error (dfrun s ops) i = Some (RErr, f).
+Proof. exact DFaultHist.failed_attempts_err. Qed.
+Print Assumptions c07_failed_attempts_err.
+
+(* the hypotheses are satisfiable: a history with three failed attempts *)
+Theorem c07_retry_nonvacuous : exists ops, retried ops /\ faults_fire dinit ops /\
+  (2 <= length (filter (fun o => match o with FFlushFail _ _ => true | _ => false end) ops))%nat /\
+  ops_ok [] (strip ops) /\ history_ok (strip ops).
+Proof. exact DFaultHist.ex_retried. Qed.
+Print Assumptions c07_retry_nonvacuous.
